@@ -25,11 +25,12 @@
     not by a theorem (C20_serde_roundtrip_dt_* are stated on [dtz_dom]). *)
 From Coq Require Import ZArith List Bool String.
 From V Require Import Base.Int Base.IO Gen.SerdeConsts Model.Scan Model.TimeDelta Model.DateTime Model.Serde
-  Proofs.C20Delta Proofs.C20Ts Proofs.C20Text Proofs.C20.
-From V Require Model.Date Model.Time Proofs.C06 Proofs.C02 Proofs.C09Time Proofs.C09DateTime Proofs.C09Zoned Proofs.C08Sweeps.
+  Proofs.C20Delta Proofs.C20Ts Proofs.C20Text Proofs.C20 Proofs.C20Holds Model.C20.
+From V Require Judge.C20.
+From V Require Model.Date Model.Time Proofs.C06 Proofs.C02 Proofs.C09Show Proofs.C09Time Proofs.C09DateTime Proofs.C09Zoned Proofs.C08Sweeps.
 Import ListNotations.
 Open Scope Z_scope.
-Import Proofs.C02 Proofs.C08Sweeps Proofs.C09Time Proofs.C09DateTime Proofs.C09Zoned.
+Import Proofs.C02 Proofs.C08Sweeps Proofs.C09Show Proofs.C09Time Proofs.C09DateTime Proofs.C09Zoned.
 
 (** * the string forms: serialize, carry through either format, deserialize = the value *)
 Theorem C20_serde_roundtrip_date : forall fmt y o d, repr y o d ->
@@ -71,10 +72,17 @@ Theorem C20_serde_roundtrip_month : forall fmt m, 0 <= m < 12 ->
 Proof. exact serde_roundtrip_month. Qed.
 Print Assumptions C20_serde_roundtrip_month.
 (* the serializer of DateTime<Tz> as read from the source: wall clock through
-   overflowing_naive_local (the repaired code), AutoSi, use_z; and the text it writes *)
-Theorem C20_serde_dt_shape : SD_DT_LOCAL_OVERFLOWING = 1 /\ SD_DT_SECFORM = 4 /\ SD_DT_USE_Z = 1.
+   overflowing_naive_local (the repaired code) and SecondsFormat::AutoSi (use_z may be either) *)
+Theorem C20_serde_dt_shape : SD_DT_LOCAL_OVERFLOWING = 1 /\ SD_DT_SECFORM = 4.
 Proof. exact serde_dt_shape. Qed.
 Print Assumptions C20_serde_dt_shape.
+(* the claim of the repair: serializing a representable DateTime<FixedOffset> never traps -- ANY
+   offset (seconds included), ANY wall clock (also one day outside the date range) gives a text *)
+Theorem C20_serialize_dt_never_traps : forall a,
+  (exists y o, repr y o (nd_date (dz_utc a))) -> tvalid (nd_time (dz_utc a)) -> -86400 < dz_off a < 86400 ->
+  exists s, ser_dtz a = Val (SOk (SStr s)).
+Proof. exact ser_dtz_total. Qed.
+Print Assumptions C20_serialize_dt_never_traps.
 
 (** * the sixteen timestamp helper modules *)
 (* serialize writes the exact timestamp floor(instant / unit); only the nanosecond modules can
@@ -155,6 +163,19 @@ Example C20_delta_example : C06.valid (mk_td (-9223372036854776) 193000000) /\
   de_td (carry 0 (STup [SI64 9223372036854776; SI32 0])) = Val (SErr ETdBounds).
 Proof. exact delta_example. Qed.
 Print Assumptions C20_delta_example.
+
+(** * the executable property (Judge/C20.v, applied to the implementation's outputs) accepts the
+      model's output on EVERY case of the reading operations: all sixteen modules x every i64 / u64 x
+      every route an integer can take to a visitor, and every (secs, nanos) pair *)
+Theorem C20_holds_tsread : forall m fmt kind n, 0 <= m <= 15 -> tsread_ok fmt kind n = true ->
+  Judge.C20.judge B"sd.tsread" [VInt m; VInt fmt; VInt kind; VInt n]
+    (run B"sd.tsread" [VInt m; VInt fmt; VInt kind; VInt n]) = JOk.
+Proof. exact holds_tsread. Qed.
+Print Assumptions C20_holds_tsread.
+Theorem C20_holds_tdread : forall fmt s n, fmt = 0 \/ fmt = 1 -> in_i64 s = true -> in_i32 n = true ->
+  Judge.C20.judge B"sd.tdread" [VInt fmt; VInt s; VInt n] (run B"sd.tdread" [VInt fmt; VInt s; VInt n]) = JOk.
+Proof. exact holds_tdread. Qed.
+Print Assumptions C20_holds_tdread.
 
 (** * the recorded findings, as witnesses on the faithful model *)
 (* +05:30:15: written with the offset rounded to +05:30, read back 15 s later *)
